@@ -174,7 +174,7 @@ def run_check(d):
     return dict(open="checker died: " + p.stdout[-300:], chain=[], size=0, rev=-1, live=[], images={}, flags={}, garbage=[])
 
 
-def run_victim(d, op, arg, trace_out, inject=None, plain=False):
+def run_victim(d, op, arg, trace_out, inject=None, plain=False, close_after=False):
     cmd = ["strace", "-f", "-s", "4096", "-o", trace_out, "-e", "trace=" + TRACE_SET]
     if inject:
         cmd += ["-e", "inject=" + inject]
@@ -182,7 +182,8 @@ def run_victim(d, op, arg, trace_out, inject=None, plain=False):
         cmd = []
     cmd += [VICTIM, "op", d, op, arg]
     try:
-        p = subprocess.run(cmd, stdout=subprocess.PIPE, stderr=subprocess.STDOUT, text=True, timeout=120)
+        env = dict(os.environ, VICTIM_CLOSE_AFTER="1") if close_after else None
+        p = subprocess.run(cmd, stdout=subprocess.PIPE, stderr=subprocess.STDOUT, text=True, timeout=120, env=env)
     except subprocess.TimeoutExpired:
         return dict(res="hang", err="victim timed out")
     for line in p.stdout.splitlines():
@@ -335,7 +336,10 @@ def run(prop, tier, seed, replay=None):
                 inj = "%s:signal=SIGKILL:when=%d" % (e["sys"], e["when"])
             else:
                 inj = "%s:error=%s:when=%d" % (e["sys"], errno, e["when"])
-            res = run_victim(d, info["op"], info["arg"], tr, inject=inj)
+            # an injected failure leaves the process alive: in half of the cases it shuts down cleanly
+            # afterwards (what the failed call left in memory is what the shutdown persists), in the
+            # other half it dies right after the call returned
+            res = run_victim(d, info["op"], info["arg"], tr, inject=inj, close_after=(kind == "fail" and k % 2 == 0))
             fevs = None
             if kind == "fail":
                 _, calls = parse_strace(tr, d)
